@@ -699,6 +699,31 @@ def scan() -> List[M]:
         M("C19", "scan4-ecomodev1-decoder-refuses-minus-100", S, "        if self.power < -100 or self.power > 100:", "        if self.power < -99 or self.power > 100:", "C19.R4"),
         M("C19", "scan4-benign-ecomodev1-decoder-wider", S, "        if self.power < -100 or self.power > 100:", "        if self.power < -101 or self.power > 100:", "clean"),
         M("C09", "scan4-failure-message-str-minus-str", P, "                \"No valid response received to '\" + self.request.hex() + \"' request.\"", "                \"No valid response received to '\" + self.request.hex() - \"' request.\"", "C09.R1"),
+        M("C14", "scan5-dt-modbus-branch-negated", DT, '        if setting_id.startswith("modbus"):\n            response = await self._read_from_socket(self._read_command(int(setting_id[7:]), 1))',
+          '        if not setting_id.startswith("modbus"):\n            response = await self._read_from_socket(self._read_command(int(setting_id[7:]), 1))', "C14.R2"),
+        M("C14", "scan5-et-modbus-sensor-branch-negated", ET, '        if sensor_id.startswith("modbus"):', '        if not sensor_id.startswith("modbus"):', "C14.R2"),
+        M("C19", "scan5-es-emulated-eco-never-sets-work-mode", ES, "            await self.write_setting('eco_mode_4_switch', 0)\n            await self._set_eco_mode()\n", "            await self.write_setting('eco_mode_4_switch', 0)\n", "C19.R1"),
+        M("C19", "scan5-es-general-helper-never-sets-work-mode", ES, "        await self._set_offgrid_work_mode(0)\n        await self._set_work_mode(OperationMode.GENERAL)\n", "        await self._set_offgrid_work_mode(0)\n", "C19.R1"),
+        # round-12 seeds (sibling variants)
+        M("C15", "l-et-battery-table-filter-object", ET, "self._sensors_meter = tuple(filter(self._not_extended_meter2, self._sensors_meter))", "self._sensors_meter = filter(self._not_extended_meter2, self._sensors_meter)", "C15.R0"),
+        M("C15", "l-benign-et-meter-table-tuple-of-generator", ET, "self._sensors_meter = tuple(filter(self._not_extended_meter2, self._sensors_meter))", "self._sensors_meter = tuple(s for s in self._sensors_meter if self._not_extended_meter2(s))", "clean"),
+        M("C14", "l-benign-et-meter-table-tuple-of-generator", ET, "self._sensors_meter = tuple(filter(self._not_extended_meter2, self._sensors_meter))", "self._sensors_meter = tuple(s for s in self._sensors_meter if self._not_extended_meter2(s))", "clean"),
+        M("C04", "l-benign-tcp-connect-in-timeout-scope", P, "            await asyncio.wait_for(self._connect(), timeout=5)\n", "            async with asyncio.timeout(5):\n                await self._connect()\n", "clean"),
+        M("C06", "l-benign-tcp-connect-in-timeout-scope", P, "            await asyncio.wait_for(self._connect(), timeout=5)\n", "            async with asyncio.timeout(5):\n                await self._connect()\n", "clean"),
+        M("C09", "l-benign-tcp-connect-in-timeout-scope", P, "            await asyncio.wait_for(self._connect(), timeout=5)\n", "            async with asyncio.timeout(5):\n                await self._connect()\n", "clean"),
+        M("C04", "l-tcp-connect-in-timeout-scope-60s", P, "            await asyncio.wait_for(self._connect(), timeout=5)\n", "            async with asyncio.timeout(60):\n                await self._connect()\n", "C04.R5"),
+        M("C06", "l-benign-tcp-close-async-with-lock", P, "    async def close(self):\n        await self._ensure_lock().acquire()\n        try:\n            self._close_transport()\n        finally:\n            if self._lock and self._lock.locked():\n                self._lock.release()\n",
+          "    async def close(self):\n        async with self._ensure_lock():\n            self._close_transport()\n", "clean"),
+        M("C10", "l-benign-tcp-close-async-with-lock", P, "    async def close(self):\n        await self._ensure_lock().acquire()\n        try:\n            self._close_transport()\n        finally:\n            if self._lock and self._lock.locked():\n                self._lock.release()\n",
+          "    async def close(self):\n        async with self._ensure_lock():\n            self._close_transport()\n", "clean"),
+        M("C01", "l-tcp-echo-compared-as-unsigned-bytes", MB, "        response_value = int.from_bytes(data[10:12], byteorder='big', signed=True)\n        if response_value != value:\n            logger.debug(\"Response has wrong value: %X, expected %X.\", response_value, value)\n", "        if data[10:12] != value.to_bytes(2, 'big'):\n            logger.debug(\"Response has wrong value: %s, expected %X.\", data[10:12].hex(), value)\n", "C01.R4"),
+        M("C01", "l-benign-tcp-echo-compared-as-signed-bytes", MB, "        response_value = int.from_bytes(data[10:12], byteorder='big', signed=True)\n        if response_value != value:\n            logger.debug(\"Response has wrong value: %X, expected %X.\", response_value, value)\n", "        if data[10:12] != value.to_bytes(2, 'big', signed=True):\n            logger.debug(\"Response has wrong value: %s, expected %X.\", data[10:12].hex(), value)\n", "clean"),
+        M("C02", "l-benign-tcp-echo-compared-as-signed-bytes", MB, "        response_value = int.from_bytes(data[10:12], byteorder='big', signed=True)\n        if response_value != value:\n            logger.debug(\"Response has wrong value: %X, expected %X.\", response_value, value)\n", "        if data[10:12] != value.to_bytes(2, 'big', signed=True):\n            logger.debug(\"Response has wrong value: %s, expected %X.\", data[10:12].hex(), value)\n", "clean"),
+        M("C04", "l-benign-tcp-echo-compared-as-signed-bytes", MB, "        response_value = int.from_bytes(data[10:12], byteorder='big', signed=True)\n        if response_value != value:\n            logger.debug(\"Response has wrong value: %X, expected %X.\", response_value, value)\n", "        if data[10:12] != value.to_bytes(2, 'big', signed=True):\n            logger.debug(\"Response has wrong value: %s, expected %X.\", data[10:12].hex(), value)\n", "clean"),
+        M("C08", "l-benign-tcp-echo-compared-as-signed-bytes", MB, "        response_value = int.from_bytes(data[10:12], byteorder='big', signed=True)\n        if response_value != value:\n            logger.debug(\"Response has wrong value: %X, expected %X.\", response_value, value)\n", "        if data[10:12] != value.to_bytes(2, 'big', signed=True):\n            logger.debug(\"Response has wrong value: %s, expected %X.\", data[10:12].hex(), value)\n", "clean"),
+        M("C03", "m-benign-rtu-offset-struct-pack", MB, "    data: bytearray = bytearray(6)\n    data[0] = comm_addr\n    data[1] = cmd\n    data[2] = (offset >> 8) & 0xFF\n    data[3] = offset & 0xFF\n", "    import struct\n    data: bytearray = bytearray(6)\n    data[0] = comm_addr\n    data[1] = cmd\n    data[2:4] = struct.pack(\">H\", offset & 0xFFFF)\n", "clean"),
+        M("C03", "m-rtu-offset-struct-pack-little-endian", MB, "    data: bytearray = bytearray(6)\n    data[0] = comm_addr\n    data[1] = cmd\n    data[2] = (offset >> 8) & 0xFF\n    data[3] = offset & 0xFF\n", "    import struct\n    data: bytearray = bytearray(6)\n    data[0] = comm_addr\n    data[1] = cmd\n    data[2:4] = struct.pack(\"<H\", offset & 0xFFFF)\n", "C03.R1"),
+        M("C03", "m-rtu-offset-struct-pack-unmasked", MB, "    data: bytearray = bytearray(6)\n    data[0] = comm_addr\n    data[1] = cmd\n    data[2] = (offset >> 8) & 0xFF\n    data[3] = offset & 0xFF\n", "    import struct\n    data: bytearray = bytearray(6)\n    data[0] = comm_addr\n    data[1] = cmd\n    data[2:4] = struct.pack(\">H\", offset)\n", "violation"),
         M("C16", "scan-dt-id-map-never-built", DT, "        self._sensors_map = {s.id_: s for s in self.sensors()}\n        return self._sensors_map.get(sensor_id)", "        return self._sensors_map.get(sensor_id)", "C16.R5"),
     ]
 
